@@ -237,6 +237,22 @@ fn gen_custom_family(src: &mut Src) -> (Option<Desc>, MetricFamily, NFamily) {
             }
         }
     }
+    // a sample built by copying the real one over a decoy with Clone::clone_from (every field must follow)
+    if src.chance(50) {
+        for m in mf.mut_metric().iter_mut() {
+            let mut decoy = prometheus::proto::Metric::default();
+            decoy.set_timestamp_ms(777);
+            let mut g = prometheus::proto::Gauge::default();
+            g.set_value(-1.25);
+            decoy.set_gauge(g);
+            let mut lp = prometheus::proto::LabelPair::default();
+            lp.set_name("decoy".to_string());
+            lp.set_value("d".to_string());
+            decoy.set_label(vec![lp.clone(), lp]);
+            decoy.clone_from(m);
+            *m = decoy;
+        }
+    }
     // label pairs are plain setter-built values: build them again with the setters called in another order (value first; or a
     // provisional name, the value, then the real name)
     if src.chance(70) {
@@ -316,8 +332,15 @@ pub fn run(bytes: &[u8]) -> Outcome {
         }
     };
 
+    // what the previous gather (of whichever registry) returned: the next result is copied over it with Clone::clone_from, the way a
+    // scraper re-uses its snapshot buffer, and the copy is what gets dumped and encoded
+    let prev: std::cell::RefCell<Vec<MetricFamily>> = std::cell::RefCell::new(vec![]);
     let dump_gather = |out: &mut String, reg: &Registry, gathered_types: &mut Vec<NType>, gathered_fams: &mut usize, any_label: &mut bool, any_nonint: &mut bool| {
-        let fams = reg.gather();
+        let orig = reg.gather();
+        let mut fams: Vec<MetricFamily> = prev.borrow().clone();
+        fams.clone_from(&orig);
+        out.push_str(&format!("COPY-EQ {}\n", fams == orig));
+        *prev.borrow_mut() = orig;
         let n = neutral_all(&fams);
         *gathered_fams = (*gathered_fams).max(n.len());
         for f in &n {
